@@ -161,7 +161,7 @@ def plan(prop, tier, seed, budget):
             builds=[('slist', 'asan')] + ([] if q else [('slist', 'rel'), ('slist', 'fuzz')]),
             jobs=[g1_jobs('slist', ['1:1:5:closure', '2:1:3:closure', '1:1:0:seq4', '2:0:0:seq3'] if q else
                           ['1:2:6:closure', '2:1:5:closure', '3:1:3:closure', '1:1:0:seq5', '2:1:0:seq4'], 200000 if q else 3000000),
-                  g2_jobs('slist', 60000 if q else 600000)] +
+                  g2_jobs('slist', 200000 if q else 1500000)] +
                  ([] if q else [g2_jobs('slist', 60000, variant='rel'), g3_jobs('slist', 400000)]),
             py=[] if q else [g3_stats('slist')],
             rule='case = byte-coded history over 1-3 slists (push_front/back, insert_after, erase_after, pop_front '
@@ -194,7 +194,7 @@ def plan(prop, tier, seed, budget):
         P = dict(
             level='exploration',
             builds=[('tree', 'asan')] + ([] if q else [('tree', 'rel'), ('tree', 'fuzz')]),
-            jobs=[g1_jobs('tree', sc, 200000 if q else 3000000), g2_jobs('tree', 15000 if q else 150000)] +
+            jobs=[g1_jobs('tree', sc, 200000 if q else 3000000), g2_jobs('tree', 30000 if q else 200000)] +
                  ([] if q else [g2_jobs('tree', 15000, variant='rel'), g3_jobs('tree', 300000)]),
             py=[] if q else [g3_stats('tree')],
             rule='case = byte-coded insert / hinted insert / erase history on a cstl_rbtree (heavy key duplication); oracle = '
@@ -211,7 +211,7 @@ def plan(prop, tier, seed, budget):
             builds=[('heap', 'asan')] + ([] if q else [('heap', 'rel'), ('heap', 'fuzz')]),
             jobs=[g1_jobs('heap', ['2:0:4', '2:1:4', '2:2:3', '1:0:5', '2:0:0:seq6'] if q else
                           ['2:0:6', '2:1:6', '3:0:5', '1:0:6', '2:0:0:seq9', '3:2:0:seq7'], 200000 if q else 3000000),
-                  g2_jobs('heap', 60000 if q else 600000)] +
+                  g2_jobs('heap', 180000 if q else 1200000)] +
                  ([] if q else [g2_jobs('heap', 60000, variant='rel'), g3_jobs('heap', 400000)]),
             py=[] if q else [g3_stats('heap')],
             rule='case = byte-coded push/pop/get/clear history with priorities from 1..1000 values (ties by design) and three '
@@ -228,7 +228,7 @@ def plan(prop, tier, seed, budget):
             builds=[('map', 'asan')] + ([] if q else [('map', 'rel'), ('map', 'fuzz')]),
             jobs=[g1_jobs('map', ['3:0:0:seq4', '4:0:5', '4:1:5', '3:2:3'] if q else
                           ['3:0:0:seq5', '4:0:7', '4:1:7', '4:2:5', '3:1:0:seq4'], 200000 if q else 3000000),
-                  g2_jobs('map', 60000 if q else 600000)] +
+                  g2_jobs('map', 200000 if q else 1500000)] +
                  ([] if q else [g2_jobs('map', 60000, variant='rel'), g3_jobs('map', 400000)]),
             py=[] if q else [g3_stats('map')],
             rule='case = byte-coded history of insert (with/without iterator), find, erase by key (with/without iterator), '
@@ -272,7 +272,7 @@ def plan(prop, tier, seed, budget):
         P = dict(
             level='exploration',
             builds=[('hash', 'asan')] + ([] if q else [('hash', 'rel'), ('hash', 'fuzz')]),
-            jobs=[g1_jobs('hash', sc, 200000 if q else 3000000), g2_jobs('hash', 60000 if q else 600000)] +
+            jobs=[g1_jobs('hash', sc, 200000 if q else 3000000), g2_jobs('hash', (200000 if prop == 'C04' else 150000) if q else 1200000)] +
                  ([] if q else [g2_jobs('hash', 60000, variant='rel'), g3_jobs('hash', 400000)]),
             py=[] if q else [g3_stats('hash')],
             rule=rule + ' Distinct = distinct case bytes.',
@@ -305,7 +305,7 @@ def plan(prop, tier, seed, budget):
             jobs=[g1_jobs('dlist', ['1:1:5:closure', '2:1:4:closure', '3:1:3:closure', '1:1:0:seq4', '2:1:0:seq3'] if q else
                           ['1:2:6:closure', '2:2:5:closure', '3:1:5:closure', '1:1:0:seq5', '2:1:0:seq4', '3:1:6:closure'],
                           200000 if q else 3000000),
-                  g2_jobs('dlist', 150000 if q else 1500000)] +
+                  g2_jobs('dlist', 300000 if q else 1500000)] +
                  ([] if q else [g2_jobs('dlist', 100000, variant='rel'), g3_jobs('dlist', 400000)]),
             py=[] if q else [g3_stats('dlist')],
             rule='case = byte-coded history over 1-3 cstl_dlist lists: push/pop at both ends (pops also on empty), insert after the '
@@ -378,7 +378,7 @@ def plan(prop, tier, seed, budget):
         P = dict(
             level='exploration',
             builds=[('array', 'asan')] + ([] if q else [('array', 'rel'), ('array', 'fuzz')]),
-            jobs=[g1_jobs('array', ['seq3:%d:16' % k for k in range(16)], 3000000), g2_jobs('array', 60000 if q else 500000)] +
+            jobs=[g1_jobs('array', ['seq3:%d:16' % k for k in range(16)], 3000000), g2_jobs('array', 120000 if q else 600000)] +
                  ([] if q else [g1_jobs('array', ['cseq4:%d:16' % k for k in range(16)], 3000000),
                                 g2_jobs('array', 50000, variant='rel'), g3_jobs('array', 400000)]),
             py=[] if q else [g3_stats('array')],
@@ -441,8 +441,8 @@ def plan(prop, tier, seed, budget):
             builds=[],
             jobs=[],
             py=[c18],
-            rule='case = a generated C99 client program: an ordered list of public headers (every header alone, all together in several '
-                 'orders, seeded ordered pairs; thorough: every ordered pair and random subsets) x {1, 2 translation units} x {libcstl.a, '
+            rule='case = a generated C99 client program: an ordered list of public headers (every header alone, every ordered pair, all '
+                 'together in several orders; thorough: plus seeded random subsets) x {1, 2 translation units} x {libcstl.a, '
                  'libcstl.so} x {include only, take the address of every function the included headers declare}; compiled with the project\'s '
                  'own CFLAGS against the library built by the project Makefile from the working tree; oracle = compiler, linker and program '
                  'exit status 0, and every declared non-static function is exported by both libraries. Non-trivial: a program with two '
@@ -506,10 +506,10 @@ def plan(prop, tier, seed, budget):
         P = dict(
             level='exploration',
             builds=[('hash', 'asan')] + ([] if q else [('hash', 'rel')]),
-            jobs=[c17a('small', 8), c17a('grid', 16), c17a('boundary', 4), g2_jobs('hash', 150000 if q else 1500000)] +
+            jobs=[c17a('small', 16), c17a('grid', 16), c17a('boundary', 4), g2_jobs('hash', 150000 if q else 1500000)] +
                  ([] if q else [g2_jobs('hash', 150000, variant='rel')]),
-            rule='(a) evaluations of cstl_hash_mul(k,m) < m and cstl_hash_div(k,m) == k % m: exhaustive k in [0,2^20) x m in 1..64 and k up to '
-                 '2^25 x 11 sizes; EVERY value the scale factor (float)m takes from 2^24 to 2^64 on the float grid, each with the smallest m that '
+            rule='(a) evaluations of cstl_hash_mul(k,m) < m and cstl_hash_div(k,m) == k % m: exhaustive k in [0,2^20) x m in 1..64, k up to '
+                 '2^25 x 11 sizes, every k below 2^31 with m = 1 and every k below 2^29 with m = 2^24; EVERY value the scale factor (float)m takes from 2^24 to 2^64 on the float grid, each with the smallest m that '
                  'rounds to it (and m+1), against the keys with the largest fractional part of phi*k and boundary keys; every m below 2^24; '
                  'boundary keys x boundary sizes (2^e-2..2^e+2, SIZE_MAX, Fibonacci numbers) and seeded random 64-bit pairs. Non-trivial: m >= 2. '
                  '(b) hash-table histories (C03 language) whose hash function returns m, m+1 or SIZE_MAX at a generated call ordinal, so the bad '
